@@ -100,6 +100,17 @@ def ex_lde(a: float, b: float):
     return D(a) + ex_log1m_exp_d(D(b) - D(a))
 
 
+def sens_sum(a: float, b: float, diff: bool = False) -> float:
+    """Unavoidable absolute error scale from rounding the difference x = lo - hi of the two double operands before it is
+    exponentiated: |x| e^x / (1 +- e^x)  (<= 1/e for sums, <= 1 for differences)."""
+    hi, lo = max(a, b), min(a, b)
+    if lo == -INF or hi == lo:
+        return 0.0
+    x = lo - hi
+    e = math.exp(x)
+    return abs(x) * e / ((1 - e) if diff else (1 + e)) if e < 1 else 1.0
+
+
 def mag_class(x: float) -> str:
     if x == -INF:
         return "-inf"
@@ -271,7 +282,7 @@ def run_case(case, obs) -> None:  # noqa: C901, PLR0912, PLR0915
             a, b, rel = gen_pair(rng)
             ok, r = expect_no_exception(obs, "log_sum_exp", lambda a=a, b=b: utils.log_sum_exp(a, b), (a, b))
             if ok:
-                close(obs, "log_sum_exp", r, ex_lse(a, b), [a, b], (a, b))
+                close(obs, "log_sum_exp", r, ex_lse(a, b), [max(a, b), sens_sum(a, b)], (a, b))
                 obs.token("log_sum_exp", mag_class(a), mag_class(b), rel)
         elif kind == "log_diff_exp":
             a, b, rel = gen_pair(rng)
@@ -279,7 +290,7 @@ def run_case(case, obs) -> None:  # noqa: C901, PLR0912, PLR0915
                 a, b = b, a
             ok, r = expect_no_exception(obs, "log_diff_exp", lambda a=a, b=b: utils.log_diff_exp(a, b), (a, b))
             if ok:
-                close(obs, "log_diff_exp", r, ex_lde(a, b), [a, b], (a, b))
+                close(obs, "log_diff_exp", r, ex_lde(a, b), [a, sens_sum(a, b, True)], (a, b))
                 obs.token("log_diff_exp", mag_class(a), mag_class(b), rel)
         elif kind == "lrf_binary":
             a, b, rel = gen_pair(rng)
@@ -307,7 +318,9 @@ def run_case(case, obs) -> None:  # noqa: C901, PLR0912, PLR0915
                 ex = -INF if -INF in (a, b) else D(a) + D(b)
             else:
                 ex = -INF if a == -INF else D(a) - D(b)
-            close(obs, f"LogRepFloat.{op}", r.log_val, ex, [a, b], (a, b))
+            # achievable accuracy: eps * (larger operand + result) for sums and differences (the smaller operand enters
+            # only through exp(lo - hi) <= 1), eps * (|a| + |b|) for products and ratios
+            close(obs, f"LogRepFloat.{op}", r.log_val, ex, [max(a, b), sens_sum(a, b, op == "sub")] if op in ("add", "sub") else [a, b], (a, b))
             obs.token("lrf", op, mag_class(a), mag_class(b), rel)
             # same operands through the plain-value constructor when representable
             if abs(a) < 600 and a != -INF:
@@ -424,7 +437,7 @@ def run_case(case, obs) -> None:  # noqa: C901, PLR0912, PLR0915
             hist_ops = []
             for _step in range(int(rng.integers(2, 9))):
                 i, j = int(rng.integers(0, len(pool))), int(rng.integers(0, len(pool)))
-                op = str(rng.choice(["add", "iadd", "mul", "radd0"]))
+                op = str(rng.choice(["add", "iadd", "mul", "radd0", "iadd_plain", "read", "read"]))
                 hist_ops.append((op, i, j))
                 try:
                     if op == "add":
@@ -433,6 +446,19 @@ def run_case(case, obs) -> None:  # noqa: C901, PLR0912, PLR0915
                     elif op == "mul":
                         pool.append(pool[i] * pool[j])
                         exact.append(None if exact[i] is None or exact[j] is None else exact[i] + exact[j])
+                    elif op == "iadd_plain":
+                        c = 0.0 if exact[i] is None and rng.integers(0, 2) else float(rng.uniform(0.2, 3.0))
+                        if exact[i] is not None and abs(exact[i]) < 600:
+                            c *= math.exp(float(exact[i]))
+                        hist_ops[-1] = (op, i, c)
+                        pool[i] += c
+                        if c > 0:
+                            exact[i] = ex_add(exact[i], D(c).ln())
+                    elif op == "read":
+                        how = int(rng.integers(0, 6))
+                        hist_ops[-1] = (op, i, ["val", "str", "array", "add1", "lt1", "repr"][how])
+                        w = pool[i]
+                        _ = (w.val, str(w), np.array(w), w + 1.0, w < 1.0, repr(w))[how]  # noqa: F841
                     elif op == "radd0":
                         r = 0 + pool[i]
                         if isinstance(r, LogRepFloat):
@@ -458,6 +484,19 @@ def run_case(case, obs) -> None:  # noqa: C901, PLR0912, PLR0915
                         bad = w.log_val != -INF
                     else:
                         bad = not (abs(D(w.log_val) - ex) <= Decimal(K * EPS * 10) * max(abs(ex), abs(D(base)), Decimal(1))) if w.log_val == w.log_val and abs(w.log_val) != INF else True
+                    if not bad and ex is not None and abs(ex) < 600:
+                        # the linear value any reader sees (val, str, np.array, mixed arithmetic) is exp(log_val) *now*
+                        lin, want = w.val, dexp(ex)
+                        obs.count("judged.program-linear")
+                        if not (abs(D(lin) - want) <= Decimal(K * EPS * 10) * (1 + abs(ex) + abs(D(base))) * want):
+                            obs.violation("LogRepFloat.program:linear-value-stale",
+                                          f"after history {hist_ops} on initial log-values {lvs} weight #{k} has log_val {w.log_val!r} but "
+                                          f"reports linear value {lin!r} (exact {want:.17E})")
+                            break
+                        if float(np.array(w)) != lin or str(w) != str(lin):
+                            obs.violation("LogRepFloat.program:linear-views-disagree",
+                                          f"after history {hist_ops}: val {lin!r}, np.array {float(np.array(w))!r}, str {w!s}")
+                            break
                     if bad:
                         obs.violation("LogRepFloat.program:value-corrupted",
                                       f"after history {hist_ops} on initial log-values {lvs} weight #{k} has log_val {w.log_val!r}, exact "
